@@ -19,6 +19,7 @@ import (
 
 	"github.com/buildbarn/bb-remote-execution/pkg/builder"
 	runner_pb "github.com/buildbarn/bb-remote-execution/pkg/proto/runner"
+	"github.com/buildbarn/bb-storage/pkg/digest"
 	"github.com/buildbarn/bb-storage/pkg/filesystem"
 	"github.com/buildbarn/bb-storage/pkg/filesystem/path"
 
@@ -87,10 +88,24 @@ type world struct {
 
 	faults, maxFaults   int
 	cancels, maxCancels int
+	// faultAt: operations at which a failure may be injected; quiet:
+	// operations that are not even scheduling points in this scenario
+	// (they then execute atomically with the preceding step).
+	faultAt map[string]bool
+	quiet   map[string]bool
 }
 
-func newWorld(x *mc.X, maxFaults, maxCancels int) *world {
+func newWorld(x *mc.X, maxFaults, maxCancels int, faultAt, quiet []string) *world {
+	fa, q := map[string]bool{}, map[string]bool{}
+	for _, o := range faultAt {
+		fa[o] = true
+	}
+	for _, o := range quiet {
+		q[o] = true
+	}
 	return &world{
+		faultAt:        fa,
+		quiet:          q,
 		x:              x,
 		root:           &node{name: "", isDir: true, children: map[string]*node{}},
 		removalFaulted: map[string]bool{},
@@ -104,8 +119,10 @@ func newWorld(x *mc.X, maxFaults, maxCancels int) *world {
 func (w *world) addThread(name string) *thread {
 	t := &thread{name: name}
 	t.ctx, t.cancel = context.WithCancel(context.Background())
+	w.mu.Lock()
 	w.threads[name] = t
 	w.order = append(w.order, name)
+	w.mu.Unlock()
 	return t
 }
 
@@ -147,9 +164,12 @@ func (w *world) reset(t *thread, op, arg string) {
 // that may inject a failure, as long as the fault budget of the scenario
 // permits. bit identifies the operation in the thread's callFaults set.
 func (w *world) fault(t *thread, op, arg string, bit int) bool {
+	if w.quiet[op] {
+		return false
+	}
 	w.reset(t, op, arg)
 	w.mu.Lock()
-	can := w.faults < w.maxFaults
+	can := w.faults < w.maxFaults && w.faultAt[op]
 	w.mu.Unlock()
 	if !can {
 		w.x.Point(op)
@@ -356,9 +376,11 @@ func (d *fakeDir) Mknod(name path.Component, perm os.FileMode, deviceNumber file
 	t := d.w.cur()
 	l := d.label("Mknod")
 	d.w.use(t, l)
-	d.w.reset(t, l, name.String())
-	d.w.x.Point(l)
-	d.w.reset(t, l+"/ret", name.String())
+	if !d.w.quiet[l] {
+		d.w.reset(t, l, name.String())
+		d.w.x.Point(l)
+		d.w.reset(t, l+"/ret", name.String())
+	}
 	d.w.mu.Lock()
 	defer d.w.mu.Unlock()
 	if _, ok := d.n.children[name.String()]; ok {
@@ -471,6 +493,45 @@ func (d *fakeDir) Close() error {
 	if failed {
 		return syscall.EIO
 	}
+	return nil
+}
+
+// fakeCreator is a base BuildDirectoryCreator that may fail; on success it
+// creates and hands out a fresh subdirectory "b<thread>" of the root (and its
+// Close removes it again), so that the same directory oracles apply.
+type fakeCreator struct{ w *world }
+
+func (c *fakeCreator) GetBuildDirectory(ctx context.Context, actionDigestIfNotRunInParallel *digest.Digest) (builder.BuildDirectory, *path.Trace, error) {
+	w := c.w
+	t := w.cur()
+	w.use(t, "base.GetBuildDirectory")
+	if w.fault(t, "base.GetBuildDirectory", "", 128) {
+		return nil, nil, status.Error(codes.Internal, "base creator failed")
+	}
+	name := "b" + t.name
+	w.mu.Lock()
+	n := &node{name: name, isDir: true, children: map[string]*node{}, openBy: t.name}
+	w.root.children[name] = n
+	t.created = name
+	t.dir = n
+	w.mu.Unlock()
+	var trace *path.Trace
+	return &ownedDir{fakeDir: fakeDir{w: w, n: n}}, trace.Append(path.MustNewComponent(name)), nil
+}
+
+// ownedDir removes itself from the root when closed.
+type ownedDir struct{ fakeDir }
+
+func (d *ownedDir) Close() error {
+	t := d.w.cur()
+	d.w.use(t, "base.Close")
+	d.w.reset(t, "base.Close", d.n.name)
+	d.w.x.Point("base.Close")
+	d.w.mu.Lock()
+	delete(d.w.root.children, d.n.name)
+	d.n.openBy = ""
+	d.w.mu.Unlock()
+	d.w.reset(t, "base.Close/ret", d.n.name)
 	return nil
 }
 
